@@ -255,6 +255,10 @@ Sampled(m, d) == Mix(m, d) % SampleMod = SampleRes
 \* "match": every match and the sample;  "sample": the sample only;  "all": everything
 ExportP(m, d) == (\/ ExportMode = "all"
                   \/ ExportMode = "focus"  /\ (\/ Near(m, d, 0) \/ Sampled(m, d)
+                                              \* everything the bare cross-validation lets through, in particular
+                                              \* manifests with a REPEATED group name (adjacent or not) whose copies
+                                              \* each match the group of that name while another group goes uncovered
+                                              \/ (Len(m) = Len(d) /\ Cross(m, d) = "ok")
                                               \/ (Near(m, d, 1) /\ Mix(m, d) % NearMod = SampleRes % NearMod))
                   \/ ExportMode = "match"  /\ (Near(m, d, 0) \/ Sampled(m, d))
                   \/ ExportMode = "sample" /\ Sampled(m, d)) => PrintT(ToJson([d |-> d, m |-> m]))
